@@ -176,4 +176,26 @@ CHECKS = {
         quick=dict(tests=[dict(name="TestC17", cases=24000), dict(name="TestC17CLI", cases=800)]),
         thorough=dict(tests=[dict(name="TestC17", cases=320000), dict(name="TestC17CLI", cases=8000)]),
     ),
+    "C13": dict(
+        level="exploration",
+        rule=("Inputs (part A: ch.cumulus, ch.postfinance, ch.supercard, ch.swisscard, ch.swisscard2, ch.viac): well-formed statements in each importer's own file format "
+              "(0-8 booking rows drawn chronologically, laid out newest- or oldest-first; charges and credits; amounts 0.00-999'999'999.99 with the format's thousands separator and "
+              "sign/column convention; foreign-currency rows (cumulus continuation line, supercard/swisscard2 FX columns); the format's noise lines: column headers, page headers, "
+              "carried-forward balance, payment section, totals, key/value header, disclaimer, BOM, ISO-8859-1, CRLF, missing final newline; free-text fields from a hostile alphabet: "
+              "quotes, separators, tab, @ # * % \\ //, leading/trailing/double blanks, NBSP, Latin-1/CJK/emoji, empty; viac: JSON dailyWealth with zero values, up to 20 decimals, exact "
+              "rounding ties, extra keys, --from). Oracle: the real binary `knut import <x> --account Assets:Import FILE` must exit 0 with empty stderr; stdout T is read by the harness's own "
+              "reader; opens+T must pass `knut check`; `knut print` of opens+T must end with T byte for byte after a block of exactly those opens; the multiset of (date, commodity, effect on "
+              "the import account) over the transactions of T equals the multiset of booking rows under the importer's documented sign convention (golden file + column names), transaction "
+              "count = booking-row count, no other directive kinds; viac: only prices, one per non-zero value on/after --from, equal to the value at two decimals (either neighbour at an exact tie). "
+              "Description text is not compared. Non-trivial: >=2 booking rows with both signs and >=1 of {thousands separator, hostile character in a description field, FX/continuation row}; "
+              "viac: >=2 carried values and >=1 of {zero value skipped, value needing rounding, --from}. Labels importer:<name> and <name>:<feature> show per-importer coverage."),
+        assumptions=["expected effects encode each importer's documented sign convention (golden file and column names), not an invented one",
+                     "characters that need it are carried in CSV fields by RFC-4180 quoting (doubled quotes); newlines inside fields are not generated",
+                     "swisscard2 credit rows carry a negative Betrag (the golden file has charges only)",
+                     "cumulus payment-section texts never look like a date (the importer recognises booking rows by two date-like leading fields)"],
+        quick=dict(tests=[dict(name="TestC13A_Cumulus", cases=160, shards=1), dict(name="TestC13A_Postfinance", cases=160, shards=1), dict(name="TestC13A_Supercard", cases=160, shards=1),
+                          dict(name="TestC13A_Swisscard", cases=160, shards=1), dict(name="TestC13A_Swisscard2", cases=160, shards=1), dict(name="TestC13A_Viac", cases=160, shards=1)]),
+        thorough=dict(tests=[dict(name="TestC13A_Cumulus", cases=3200, shards=4), dict(name="TestC13A_Postfinance", cases=3200, shards=4), dict(name="TestC13A_Supercard", cases=3200, shards=4),
+                             dict(name="TestC13A_Swisscard", cases=3200, shards=4), dict(name="TestC13A_Swisscard2", cases=3200, shards=4), dict(name="TestC13A_Viac", cases=3200, shards=4)]),
+    ),
 }
